@@ -133,6 +133,11 @@ func runWriterScript(x *Exec, w *WCase, bw *bgzf.Writer, after func(i int, op st
 			if err != nil || n != len(p) {
 				return &apiErr{i, fmt.Sprintf("Write(%d bytes) = %d, %v", len(p), n, err)}
 			}
+			// io.Writer: "Implementations must not retain p" - the caller
+			// reuses its buffer as soon as Write has returned
+			for j := range p {
+				p[j] = ^p[j]
+			}
 		case "flush":
 			if err := bw.Flush(); err != nil {
 				return &apiErr{i, fmt.Sprintf("Flush() = %v", err)}
